@@ -123,10 +123,11 @@ register('C01',
          '(C01_newest_version_equals_live_row, by an inductive invariant whose step is C01_flush_step); every row a flush adds '
          'belongs to an entity with a tracked insert / delete / real update (C01_rows_only_for_tracked_changes). The environment '
          'assumptions (flush_wf) are monitored on every recorded trace; where the real environment violates them the property '
-         'itself fails on the code: one such class stays an open known finding (row switch, Refuted/C01_refuted.v), three were '
-         'repaired. Every run compares model and real tables after every flush and evaluates the property on the snapshots.',
+         'itself failed on the code: four such classes were found and repaired (spurious update, version defaults, cascade from a '
+         'non-versioned parent, row switch). Every run compares model and real tables after every flush and evaluates the property on the snapshots.',
          COMMON_NOTE + 'The SQLAlchemy session is environment (recorded traces). Shapes: flat classes with int / composite / string keys, '
-         'aliased column, class-level option overrides; inheritance shapes and expunge are not generated yet.',
+         'class-level option overrides, non-versioned parent, joined-table / single-table inheritance (the machine theorems assume one '
+         'class per table; hierarchies are covered by the correspondence and the predicates).',
          'Coq proof (inductive invariant over event traces: operations map, version-object cache, rows vs live tables) + vm_compute replay of recorded traces',
          'DESIGN.md §7 C01')
 
